@@ -163,13 +163,37 @@ func (s ClientRecoveryStore) GetStore(prefix []byte) (storetypes.KVStore, bool) 
 
 // closedIterator returns an iterator that is always closed, used when Iterator() or ReverseIterator() is called
 // with an invalid prefix or start/end key.
-func (s ClientRecoveryStore) closedIterator() storetypes.Iterator {
-	// Create a dummy iterator that is always closed right away.
-	it := s.subjectStore.Iterator([]byte{0}, []byte{1})
-	it.Close()
-
-	return it
+func (ClientRecoveryStore) closedIterator() storetypes.Iterator {
+	// NOTE: a real iterator which is closed right away is not used here, some store implementations
+	// (e.g. cachekv) keep such an iterator valid and would hand out entries of the subject store.
+	return emptyIterator{}
 }
+
+// emptyIterator is an iterator over nothing: it is never valid.
+type emptyIterator struct{}
+
+var _ storetypes.Iterator = emptyIterator{}
+
+// Domain implements the storetypes.Iterator interface.
+func (emptyIterator) Domain() ([]byte, []byte) { return nil, nil }
+
+// Valid implements the storetypes.Iterator interface.
+func (emptyIterator) Valid() bool { return false }
+
+// Next implements the storetypes.Iterator interface.
+func (emptyIterator) Next() { panic(errors.New("invalid iterator")) }
+
+// Key implements the storetypes.Iterator interface.
+func (emptyIterator) Key() []byte { panic(errors.New("invalid iterator")) }
+
+// Value implements the storetypes.Iterator interface.
+func (emptyIterator) Value() []byte { panic(errors.New("invalid iterator")) }
+
+// Error implements the storetypes.Iterator interface.
+func (emptyIterator) Error() error { return nil }
+
+// Close implements the storetypes.Iterator interface.
+func (emptyIterator) Close() error { return nil }
 
 // SplitPrefix splits the key into the prefix and the key itself, if the key is prefixed with either "subject/" or "substitute/".
 // If the key is not prefixed with either "subject/" or "substitute/", the prefix is nil.
